@@ -424,3 +424,76 @@ c.loop(
 )
 c.ensures(lambda S: S.it.ctx.ghost["all_same"], "a-reply-is-returned-only-if-every-digit-coded-line-carried-its-code")
 c.ensures(lambda S: S.it.unbox(S.result[0]).t == S.it.ctx.ghost["c0"].t, "the-reported-code-is-the-first-line's")
+
+
+# ------------------------------------------------------------------------------------ BaseClient.command / check_codes
+f_match = z3.Function("code_matches", S_, S_, z3.BoolSort())
+
+cm_ = contract(CLIENT, "Code.matches", props=[], name="Code.matches#summary")
+cm_.self_check = False
+cm_.result_shape = lambda S: SV("bool", f_match(S.it.unbox(S.vars["self"]).t, z3.StringVal(S.vars["mask"]) if isinstance(S.vars["mask"], str) else S.it.unbox(S.vars["mask"]).t))
+
+cpr_ = contract(CLIENT, "BaseClient.parse_response", props=[], name="BaseClient.parse_response#summary")
+cpr_.self_check = False
+cpr_.may_suspend = True
+
+
+def _pr_summary(S):
+    it = S.it
+    code = fresh("str", "reply_code")
+    it.ctx.ghost["n_replies"] = it.ctx.ghost.get("n_replies", 0) + 1
+    return (mk_code(it, code), SymSeq("str", z3.Const(f"info!{next(strmodel._split_ctr)}", A_), z3.Int(f"infolen!{next(strmodel._split_ctr)}"), kind="list"))
+
+
+cpr_.result_shape = _pr_summary
+cpr_.raises_("StatusCodeError")
+cpr_.raises_("ConnectionResetError")
+
+
+def setup_command(u):
+    it = u.it
+    cl = mk_client(u)
+    cl.cls = u.cls(CLIENT, "BaseClient")
+    nw = u.choose(3, "n-wait-masks")
+    ne = u.choose(3, "n-expected-masks")
+    waits = tuple(fresh("str", f"wait{i}") for i in range(nw))
+    exps = tuple(fresh("str", f"exp{i}") for i in range(ne))
+    f = it.getattr_(cl, "command")
+    return f, [None, exps, waits], {}, {"self": cl, "waits": waits, "exps": exps}
+
+
+c = contract(CLIENT, "BaseClient.command", props=["C06"], name="BaseClient.command#replies")
+c.setup = setup_command
+c.uses = [(CLIENT, "Code.matches#summary"), (CLIENT, "BaseClient.parse_response#summary")]
+c.raises_("ConnectionResetError")
+c.loop(0, LoopSpec(invariants=[], shapes={"code": lambda it: mk_code(it, fresh("str", "reply_code")), "info": lambda it: SymSeq("str", z3.Const(f"info!{next(strmodel._split_ctr)}", A_), z3.Int(f"infolen!{next(strmodel._split_ctr)}"), kind="list")}))
+c.assumptions.append("0..2 wait masks and 0..2 expected masks (the tree passes at most two of each); Code.matches and parse_response are used through their contracts")
+
+
+def cmd_result_is_first_non_wait(S):
+    it = S.it
+    if S.result is None:
+        return z3.BoolVal(not S.vars["waits"] and not S.vars["exps"])
+    code = it.unbox(S.result[0]).t
+    no_wait = z3.And(*[z3.Not(f_match(code, w.t)) for w in S.vars["waits"]]) if S.vars["waits"] else z3.BoolVal(True)
+    exp_ok = z3.Or(*[f_match(code, e.t) for e in S.vars["exps"]]) if S.vars["exps"] else z3.BoolVal(True)
+    return z3.And(no_wait, exp_ok)
+
+
+c.ensures(cmd_result_is_first_non_wait, "returns-a-reply-matching-no-wait-mask-and-some-expected-mask")
+
+
+def cmd_exit(S, outcome):
+    it = S.it
+    if outcome[0] == "raise" and outcome[1].cls.name == "StatusCodeError":
+        # raised by check_codes: the reply that ended the wait matches none of the expected masks
+        rc = outcome[1].fields.get("received_codes")
+        from_check = rc is not None
+        if from_check and S.vars["exps"]:
+            code = it.unbox(rc[0] if isinstance(rc, tuple) else rc)
+            if isinstance(code, SV):
+                it.ctx.check("BaseClient.command/raises:StatusCodeError-only-when-no-expected-mask-matches", z3.And(*[z3.Not(f_match(code.t, e.t)) for e in S.vars["exps"]]), info={"props": ["C06"]})
+
+
+c.exit_hook = cmd_exit
+c.raises_("StatusCodeError")
